@@ -86,7 +86,7 @@ def run(ctx):
     )
 
 
-PARTIAL = ["ask_greedy_optimal: the abstract greedy-optimality theorem (c02_greedy_optimal) is proved; the theorem that askLoop IS such a greedy process (sorted tables => each step picks a maximal share) is being proved separately"]
+PARTIAL = []
 
 
 def replay(ctx, path):
